@@ -236,7 +236,24 @@ func (w *worker) runConc(cs J) J {
 		// store lock (verif hook ds.unlocked); connection 2 then runs its whole program; connection 1 is released.
 		// A command that does its work in one critical section has finished by then and the history is trivially
 		// linearizable; one that comes back for a second critical section has been interleaved with.
-		x := jCmd(jList(progs["1"])[0])
+		// (connection 1 may first run a prelude - WATCH k, MULTI, queued commands - un-gated: its last command is X)
+		p1 := jList(progs["1"])
+		for i, cm := range p1[:len(p1)-1] {
+			cmd := jCmd(cm)
+			add(histEvent{stamp: atomic.AddInt64(&stamp, 1), E: "inv", C: 1, I: i + 1, Cmd: cmdJ(cmd)})
+			rep, err := conns[1].Do(cmd...)
+			if err != nil {
+				st := fail("connection 1 got no reply in its prelude: " + err.Error())
+				w.restart()
+				if st["status"] == "error" {
+					st["status"] = "noreply"
+				}
+				return st
+			}
+			add(histEvent{stamp: atomic.AddInt64(&stamp, 1), E: "ret", C: 1, I: i + 1, R: replyJ(rep)})
+		}
+		xi := len(p1)
+		x := jCmd(p1[xi-1])
 		for len(w.child.out) > 0 {
 			<-w.child.out
 		}
@@ -244,7 +261,7 @@ func (w *worker) runConc(cs J) J {
 		if !w.waitLine(func(l string) bool { return strings.HasPrefix(l, "ARMED") }, 3*time.Second) {
 			return fail("gate not armed (built without the verif tag?)")
 		}
-		add(histEvent{stamp: atomic.AddInt64(&stamp, 1), E: "inv", C: 1, I: 1, Cmd: cmdJ(x)})
+		add(histEvent{stamp: atomic.AddInt64(&stamp, 1), E: "inv", C: 1, I: xi, Cmd: cmdJ(x)})
 		if err := conns[1].Send(x); err != nil {
 			return fail("write: " + err.Error())
 		}
@@ -281,7 +298,7 @@ func (w *worker) runConc(cs J) J {
 			}
 			return st
 		}
-		add(histEvent{stamp: atomic.AddInt64(&stamp, 1), E: "ret", C: 1, I: 1, R: replyJ(rep)})
+		add(histEvent{stamp: atomic.AddInt64(&stamp, 1), E: "ret", C: 1, I: xi, R: replyJ(rep)})
 		ids = ids[:0]
 		for k := range progs {
 			var n int
